@@ -24,7 +24,7 @@ import (
 )
 
 type Step struct {
-	Kind   string        `json:"kind"` // put | delete | evict | restart | writeback
+	Kind   string        `json:"kind"` // put | delete | evict | restart | writeback | wb1 (write-back of ONE cache: Cache)
 	Name   string        `json:"name,omitempty"`
 	From   int64         `json:"from,omitempty"`
 	Until  int64         `json:"until,omitempty"`
@@ -68,7 +68,7 @@ type store struct {
 	tickAt, tickSeen   int
 	tickFired          bool
 	tickLen, tickSaved int
-	recording          bool
+	recording          string // name of the cache whose serializations are being recorded ("" = none)
 	saved              map[string]bool
 }
 
@@ -94,7 +94,7 @@ func (st *store) reopen() {
 		panic(err)
 	}
 	s.VerifWrapCaches(func(cacheName, key string) {
-		if st.recording && cacheName == "trees" {
+		if st.recording != "" && cacheName == st.recording {
 			st.saved[key] = true
 		}
 	})
@@ -107,10 +107,10 @@ func (st *store) reopen() {
 				st.tickAt = 0
 				// what the periodic write-back task does to the trees cache, at this very moment
 				st.tickLen = tc.Len()
-				st.saved, st.recording = map[string]bool{}, true
+				st.saved, st.recording = map[string]bool{}, "trees"
 				tc.WriteBack()
 				tc.VerifBarrier()
-				st.recording = false
+				st.recording = ""
 				st.tickSaved, st.tickFired = len(st.saved), true
 			}
 		}
@@ -233,6 +233,19 @@ func (st *store) apply(s Step, seq int) (errs string) {
 		st.reopen()
 	case "writeback":
 		st.s.VerifWriteBack()
+	case "wb1":
+		// what the periodic write-back task does to one cache; how many entries it held and how many of them the
+		// write-back goroutine really serialized is observed
+		c := st.s.VerifCache(s.Cache)
+		if c == nil {
+			return "no such cache"
+		}
+		st.tickLen = c.Len()
+		st.saved, st.recording = map[string]bool{}, s.Cache
+		c.WriteBack()
+		c.VerifBarrier()
+		st.recording = ""
+		st.tickSaved, st.tickFired = len(st.saved), true
 	}
 	return ""
 }
@@ -262,11 +275,13 @@ func kindCoq(k string) string {
 		return "KEvict"
 	case "restart":
 		return "KRestart"
+	case "wb1":
+		return "KWb1"
 	}
 	return "KWriteBack"
 }
 
-func isMaint(k string) bool { return k == "evict" || k == "restart" || k == "writeback" }
+func isMaint(k string) bool { return k == "evict" || k == "restart" || k == "writeback" || k == "wb1" }
 
 func cacheTotal(s *storage.Storage) int {
 	t := 0
@@ -798,7 +813,81 @@ func genWbTick(r *rand.Rand) Input {
 	return in
 }
 
+// ---- stream "bulk": 45-120 series of one application under one label, with keys of ~80 bytes (the dimension of the
+// application name serializes to several KiB), the dimensions evicted or the storage restarted, selector queries ----
+func genBulk(r *rand.Rand) Input {
+	in := Input{Stream: "bulk"}
+	n := lib.Pick(r, []int{45, 52, 70, 100, 120})
+	b := boundary(r, 100)
+	pad := strings.Repeat("x", lib.Pick(r, []int{40, 60, 60}))
+	name := func(i int) string { return fmt.Sprintf("app0{t=v%03d%s}", i, pad) }
+	for i := 0; i < n; i++ {
+		f := b + 10*int64(i%10)
+		in.Steps = append(in.Steps, Step{Kind: "put", Name: name(i), From: f, Until: f + 10, Quiet: true,
+			Stacks: []treeu.Stack{{Key: []byte(fmt.Sprintf("a;s%d", i%7)), V: uint64(1 + i%5)}}})
+	}
+	switch r.Intn(3) {
+	case 0:
+		in.Steps = append(in.Steps, Step{Kind: "restart"})
+	case 1:
+		in.Steps = append(in.Steps, Step{Kind: "evict", Cache: "dimensions", Num: 1, Den: 1})
+	default:
+		in.Steps = append(in.Steps, Step{Kind: "evict", Cache: "dimensions", Num: 1, Den: 2})
+		in.Steps = append(in.Steps, Step{Kind: "evict", Cache: "dimensions", Num: 1, Den: 1})
+	}
+	if lib.Chance(r, 0.5) {
+		i := r.Intn(n)
+		in.Steps = append(in.Steps, Step{Kind: "delete", Name: name(i)})
+		in.Steps = append(in.Steps, Step{Kind: "restart"})
+	}
+	in.Queries = append(in.Queries, Query{Name: "app0{}", From: b - 100, Until: b + 200})
+	for _, i := range []int{0, n / 2, n - 1} {
+		in.Queries = append(in.Queries, Query{Name: name(i), From: b - 100, Until: b + 200})
+	}
+	return in
+}
+
+// ---- stream "reingest": an object is written back while it stays cached (write-back of one cache, observed), the
+// application is deleted, the very same upload is ingested again (byte-identical objects under the same keys), then
+// that cache is evicted or the storage closed before anything else changes, then restart and queries ----
+func genReingest(r *rand.Rand) Input {
+	in := Input{Stream: "reingest"}
+	b := boundary(r, lib.Pick(r, []int64{100, 1000}))
+	name := "app0{}"
+	f := b + 10*int64(r.Intn(10))
+	up := Step{Kind: "put", Name: name, From: f, Until: f + 10,
+		Stacks: []treeu.Stack{{Key: []byte("a;b"), V: uint64(lib.Range(r, 1, 20))}, {Key: []byte("a;c"), V: uint64(lib.Range(r, 1, 9))}}}
+	in.Steps = append(in.Steps, up)
+	caches := []string{"trees", "segments", "dimensions", "dicts"}
+	r.Shuffle(len(caches), func(i, j int) { caches[i], caches[j] = caches[j], caches[i] })
+	nwb := lib.Range(r, 1, 3)
+	for _, c := range caches[:nwb] {
+		in.Steps = append(in.Steps, Step{Kind: "wb1", Cache: c})
+	}
+	in.Steps = append(in.Steps, Step{Kind: "delete", Name: name})
+	in.Steps = append(in.Steps, up)
+	if lib.Chance(r, 0.5) {
+		in.Steps = append(in.Steps, Step{Kind: "evict", Cache: caches[0], Num: 1, Den: 1, Quiet: true})
+	}
+	in.Steps = append(in.Steps, Step{Kind: "restart"})
+	if lib.Chance(r, 0.3) {
+		f2 := b + 10*int64(r.Intn(10))
+		in.Steps = append(in.Steps, Step{Kind: "put", Name: name, From: f2, Until: f2 + 10, Stacks: up.Stacks})
+		in.Steps = append(in.Steps, Step{Kind: "restart"})
+	}
+	for _, q := range [][2]int64{{0, 100}, {-100, 200}} {
+		in.Queries = append(in.Queries, Query{Name: name, From: b + q[0], Until: b + q[1]})
+	}
+	return in
+}
+
 func gen(r *rand.Rand, idx int, tier string) Input {
+	switch idx % 22 {
+	case 10:
+		return genBulk(r)
+	case 21, 13:
+		return genReingest(r)
+	}
 	switch idx % 9 {
 	case 8:
 		return genWbTick(r)
